@@ -465,6 +465,103 @@ def isScram (st : MgrSt) : Bool :=
   | .scram _ => true
   | _ => false
 
+/-! ## FAST tokens across connections (`FastTokenManager`, XEP-0484) -/
+
+/-- One client object over several connections.  HT mechanisms are numbered in the order of `IanaHashAlgorithm`
+(the order `std::ranges::max` uses): 0 = HT-SHA-256-NONE, 1 = HT-SHA-512-NONE, 2 = HT-SHA3-256-NONE, 3 = HT-SHA3-512-NONE. -/
+structure FastSt where
+  user : Bytes := []
+  pass : Bytes := []
+  /-- `!credentials.password.isEmpty()` -/
+  hasPw : Bool := false
+  /-- `config.credentialData().htToken`: (mechanism it is filed under, secret) -/
+  token : Option (Nat × Bytes) := none
+  /-- `FastTokenManager::requestedMechanism` -/
+  requested : Option Nat := none
+  /-- `m_tokenChanged` -/
+  tokenChanged : Bool := false
+  /-- the login in progress, as the SERVER sees it: (mechanism named in `<request-token/>`, HT mechanism announced);
+  `none` = no login pending -/
+  cur : Option (Option Nat × Option Nat) := none
+  /-- server-side truth: the mechanism the stored token was issued for (`none` = unknown: an unsolicited token) -/
+  issued : Option Nat := none
+  deriving DecidableEq, Repr
+
+inductive FastOp
+  /-- the application replaces the credentials (`setCredentials` / `setPassword`); a stored token comes with the
+  mechanism it was issued for -/
+  | setCreds (hasPw : Bool) (token : Option (Nat × Bytes))
+  /-- a connection reaches SASL2 negotiation: `config.useFastTokenAuthentication()` and a user agent set (`fastEnabled`),
+  the server's `<fast/>` feature (`none` = absent) with its -NONE mechanisms; `<mechanism>PLAIN</mechanism>` is always offered -/
+  | login (fastEnabled : Bool) (offer : Option (List Nat))
+  /-- `<success/>`, possibly carrying a new `<token/>` -/
+  | success (tok : Option Bytes)
+  /-- the login ends without success -/
+  | fail
+  deriving DecidableEq, Repr
+
+inductive FastOut
+  /-- `<authenticate mechanism=…>`: `mech = none` is PLAIN, `some m` is HT mechanism `m`; initial response; `<request-token/>` -/
+  | sent (mech : Option Nat) (initial : Bytes) (req : Option Nat)
+  | error
+  | nothing
+  deriving DecidableEq, Repr
+
+/-- `max(mechanisms)` of `selectMechanism` -/
+def maxOpt : List Nat → Option Nat
+  | [] => none
+  | a :: l => match maxOpt l with
+    | none => some a
+    | some b => some (if a < b then b else a)
+
+/-- `fam m` is the hash family of HT mechanism `m` -/
+def fastStep (fam : Nat → Crypto) (st : FastSt) : FastOp → FastSt × FastOut
+  | .setCreds hasPw token =>
+    ({ st with hasPw := hasPw, token := token, issued := token.map (·.1) }, .nothing)
+  | .login fastEnabled offer =>
+    -- FastTokenManager::onSasl2Authenticate
+    let req := if offer.isSome && fastEnabled && st.token.isNone then maxOpt (offer.getD []) else none
+    let st1 := { st with requested := req, tokenChanged := false }
+    -- Sasl2Manager::authenticate: the strongest available mechanism; HT needs the stored token's own mechanism on offer
+    match st.token with
+    | some tok =>
+      if offer.isSome && fastEnabled && (offer.getD []).contains tok.1 then
+        match (htStep (fam tok.1) { user := st.user, htMech := tok.1, token := some tok } false []).2 with
+        | some r => ({ st1 with cur := some (req, some tok.1) }, .sent (some tok.1) r req)
+        | none => ({ st1 with cur := none }, .error)
+      else if st.hasPw then
+        ({ st1 with cur := some (req, none) }, .sent none (0 :: (st.user ++ 0 :: st.pass)) req)
+      else ({ st1 with cur := none }, .error)
+    | none =>
+      if st.hasPw then
+        ({ st1 with cur := some (req, none) }, .sent none (0 :: (st.user ++ 0 :: st.pass)) req)
+      else ({ st1 with cur := none }, .error)
+  | .success tok =>
+    match st.cur with
+    | none => (st, .nothing)
+    | some c =>
+      -- FastTokenManager::onSasl2Success
+      match tok with
+      | none => ({ st with cur := none }, .nothing)
+      | some sec =>
+        match st.requested, st.token with
+        | some r, _ => ({ st with cur := none, token := some (r, sec), tokenChanged := true, issued := c.1.or c.2 }, .nothing)
+        | none, some old => ({ st with cur := none, token := some (old.1, sec), tokenChanged := true, issued := c.1.or c.2 }, .nothing)
+        | none, none => ({ st with cur := none }, .nothing)
+  | .fail => ({ st with cur := none }, .nothing)
+
+def fastRun (fam : Nat → Crypto) (st : FastSt) : List FastOp → FastSt
+  | [] => st
+  | op :: ops => fastRun fam (fastStep fam st op).1 ops
+
+/-- the credentials are not replaced while a login is pending -/
+def wellTimed (fam : Nat → Crypto) (st : FastSt) : List FastOp → Bool
+  | [] => true
+  | op :: ops =>
+    (match op with
+      | .setCreds _ _ => st.cur.isNone
+      | _ => true) && wellTimed fam (fastStep fam st op).1 ops
+
 /-! ## Reference, written from the specifications -/
 namespace Ref
 
